@@ -10,6 +10,8 @@ from pygaps.characterisation.area_bet import area_BET, area_BET_raw
 from pygaps.characterisation.area_lang import area_langmuir, area_langmuir_raw
 from pygaps.characterisation.dr_da_plots import da_plot, da_plot_raw, dr_plot
 from pygaps.characterisation.t_plots import t_plot, t_plot_raw
+from pygaps.core.adsorbate import Adsorbate
+from pygaps.data import ADSORBATE_LIST
 from pygaps.utilities.exceptions import CalculationError
 
 from pbt import case as K
@@ -141,14 +143,27 @@ def _limits(draw, n, first=0, both_required=False, auto_share=0.2, allow_refusal
     return {"lo": lo, "hi": hi}
 
 
-def _iso_fields(draw):
+CUSTOM_NAME = "pbt-user-vapour"
+_CUSTOM_T = [77.0, 87.3, 273.15, 298.0]
+
+
+def _iso_fields(draw, custom_ok=False):
     tab = ads_table()
-    return {
+    d = {
         "adsorbate": tab[draw(st.integers(0, len(tab) - 1))][0],
         "u": draw(st.floats(0, 1)),
         "units": {"p": list(draw(st.sampled_from(P_CONFIGS))), "l": list(draw(st.sampled_from(L_CONFIGS))),
                   "m": list(draw(st.sampled_from(M_CONFIGS)))},
     }
+    if custom_ok and draw(st.sampled_from([False] * 3 + [True])):
+        # a user-defined adsorbate without thermodynamic backend: always the same name and one of four temperatures, but
+        # its own molar mass / liquid density / cross-section in every case (what the analysis must read each time)
+        d["adsorbate"] = CUSTOM_NAME
+        d["custom"] = {"T": draw(st.sampled_from(_CUSTOM_T)), "M": draw(st.floats(4.0, 300.0)), "rho": draw(st.floats(0.1, 3.0)),
+                       "cs": draw(st.floats(0.05, 0.6))}
+        d["units"]["p"] = list(draw(st.sampled_from([("relative", None), ("relative", None), ("relative%", None)])))
+        d["units"]["l"] = list(draw(st.sampled_from([("molar", "mol"), ("molar", "mmol"), ("molar", "cm3(STP)")])))
+    return d
 
 
 def _entry_fields(draw, raw_extra):
@@ -159,7 +174,7 @@ def _entry_fields(draw, raw_extra):
             d[k] = draw(s)
         return d
     d = {"entry": "iso"}
-    d.update(_iso_fields(draw))
+    d.update(_iso_fields(draw, custom_ok=True))
     return d
 
 
@@ -421,6 +436,16 @@ def fit_check(what, res_slope, res_icpt, x, y, ins, tol, tag, log_y=False):
 
 def iso_env(desc):
     """(fluid, T, cross_section, M, rho_liq[g/cm3]) for the isotherm entry points, from CoolProp's high-level API."""
+    c = desc.get("custom")
+    if c:
+        props = dict(molar_mass=c["M"], liquid_density=c["rho"], cross_sectional_area=c["cs"])
+        for a in ADSORBATE_LIST:
+            if a.name == CUSTOM_NAME:
+                a.properties = dict(props)
+                break
+        else:
+            Adsorbate(CUSTOM_NAME, store=True, **props)
+        return None, c["T"], c["cs"], c["M"], c["rho"]
     e = next(t for t in ads_table() if t[0] == desc["adsorbate"])
     T = K.temperature_for(e[:4], desc["u"])
     M = ru.molar_mass(e[1])
